@@ -106,7 +106,7 @@ void bn_rec_win(uint8_t *win, size_t *len, const bn_t k, size_t w) {
 	memset(win, 0, *len);
 
 	j = 0;
-	for (i = 0; i < l - w; i += w) {
+	for (i = 0; i + w < l; i += w) {
 		win[j++] = get_bits(k, i, i + w - 1);
 	}
 	win[j++] = get_bits(k, i, bn_bits(k) - 1);
